@@ -28,4 +28,6 @@ def main (args : List String) : IO UInt32 := do
   | ["ov"] => stateLoop stdin stdout Oratio.Driver.OvD.step none; return 0
   | ["sat"] => stateLoop stdin stdout Oratio.Driver.SatD.step none; return 0
   | ["lex"] => lineLoop stdin stdout Oratio.Driver.RiddleD.step; return 0
+  | ["parse"] => lineLoop stdin stdout Oratio.Driver.RiddleParseD.step; return 0
+  | ["net"] => stateLoop stdin stdout Oratio.Driver.NetD.step none; return 0
   | _ => IO.eprintln "usage: oratio_model <arith|...>"; return 2
